@@ -147,7 +147,8 @@ def run_cell(cell, seed):
         # the same input with autograd recording (requires_grad) and inside torch.no_grad(): same values
         ok2, z2 = util.call_lib(mod, x.clone().requires_grad_(True))
         ok3, z3 = util.call_lib_nograd(mod, x)
-        for nm, okk, zz in (('requires_grad input', ok2, z2), ('torch.no_grad()', ok3, z3)):
+        ok4, z4 = util.call_lib_eval(mod, x)
+        for nm, okk, zz in (('requires_grad input', ok2, z2), ('torch.no_grad()', ok3, z3), ('module in eval() mode', ok4, z4)):
             rs = judge(dict(cell), x, okk, zz.detach() if okk else zz)
             for r in rs:
                 r['case'] = dict(r['case'], context=nm)
